@@ -159,8 +159,7 @@ theorem get_bytes_old_counterexample :
   intro h
   exact absurd (h ⟨[1, 2], 1, 2, 2, true, true, false⟩ 0xFFFFFFFF (by decide)) (by decide)
 
-/-- … and leaves `read_pos = 0 … ` behind a successful "read" of `UINT_MAX` bytes: the cursor
-invariant survives only by accident, the access does not -/
+/-- … the call on that witness really returns true (it is not refused for another reason) -/
 theorem get_bytes_old_succeeds : (getBytesOld ⟨[1, 2], 1, 2, 2, true, true, false⟩ 0xFFFFFFFF).ok = true := by
   decide
 
